@@ -828,7 +828,9 @@ libGetHeader(Lib lib)
 			libNameIndex(lib, n) = i;
 	}
 
-	libChkHeader(lib);
+	/* A file whose header does not check must not be used. */
+	if (!libChkHeader(lib))
+		comsgFatal(NULL, ALDOR_F_CantOpen, libToStringStatic(lib));
 	return lib;
 }
 
